@@ -2,7 +2,7 @@ import Mutagen.Driver.Util
 import Mutagen.Driver.Tree
 import Mutagen.Driver.Cycle
 import Mutagen.Model.Executability
-import Mutagen.Model.Lifecycle
+import Mutagen.Model.SyncCycle
 namespace Mutagen.Driver.C18
 open Mutagen.Driver Mutagen.Driver.Tree Mutagen.Driver.Cycle Mutagen.Model
 
